@@ -7,5 +7,4 @@ Extraction Language OCaml.
 Extraction "../ocaml/gen/check_ex.ml"
   determine_exit_code apply_baseline_comparison check_baseline_ratchet tighten_baseline
   handle_baseline_ratchet update_baseline_from_results check_step restrict restrict_dirs
-  evaluated_of ff_subb ff_subb_gen ff_seq ff_seq_gen lookup contains key_of mkResult mkFlags mkSel
-  is_failed is_structure.
+  evaluated_of retain_evaluated ff_subb ff_seq ff_trigger lookup contains key_of mkResult mkFlags mkSel.
